@@ -29,6 +29,7 @@ var keyProps = map[string][]string{
 	"refused-although-current":         {"C03"},
 	"double-spend":                     {"C03", "C12"},
 	"selection-handed-twice":           {"C12"},
+	"walkrace-not-serialisable":        {"C12"},
 	"selected-output-not-in-table":     {"C05", "C03", "C12"},
 	"double-supersede":                 {"C03", "C12"},
 	"pool-unexpected":                  {"C03", "C12"},
@@ -81,10 +82,10 @@ var profiles = map[string]*Profile{
 		W:         map[string]int{"xfer": 6, "ktx": 6, "mine": 5, "foreign": 5, "fork": 5, "walk": 3, "sync": 3, "xfer-bad": 1, "truncate": 2, "badblock": 1, "bad-truncate": 2},
 		EndChecks: []string{"crashcheck 120"}},
 	"C12": {Name: "schedules", Steps: 30, Fee: []bool{false, true}, Windows: []int64{0},
-		W:         map[string]int{"xfer": 4, "ktx": 4, "race": 10, "balrace": 6, "selrace": 4, "xfer-bad": 3, "ktx-two": 3, "ktx-old": 2, "mine": 3, "foreign": 3, "fork": 2, "walk": 2, "sync": 2},
+		W:         map[string]int{"xfer": 4, "ktx": 4, "race": 10, "balrace": 6, "selrace": 4, "walkrace": 4, "xfer-bad": 3, "ktx-two": 3, "ktx-old": 2, "mine": 3, "foreign": 3, "fork": 2, "walk": 2, "sync": 2},
 		EndChecks: []string{"sync", "obs"}},
 	"C17": {Name: "finality", Steps: 34, Fee: []bool{false}, Windows: []int64{1, 2, 3, 0},
-		W:         map[string]int{"xfer": 2, "ktx": 2, "mine": 6, "foreign": 5, "fork": 7, "walk": 6, "sync": 3, "reopen": 2, "badblock": 2, "truncate": 2},
+		W:         map[string]int{"xfer": 2, "ktx": 2, "mine": 6, "foreign": 5, "fork": 7, "walk": 6, "sync": 3, "reopen": 2, "badblock": 2, "truncate": 2, "walkrace": 4},
 		EndChecks: []string{"sync", "obs"}},
 	"C18": {Name: "snapshots", Steps: 34, Fee: []bool{false}, Windows: []int64{0},
 		W:         map[string]int{"ktx": 12, "mine": 6, "foreign": 4, "fork": 3, "walk": 2, "sync": 2, "snap": 3, "xfer": 1},
@@ -203,6 +204,9 @@ func main() {
 			out.Sample(map[string]interface{}{"ops": headTail(g.canon, 14)})
 		}
 		kvmem.Drop(args.Scratch)
+	}
+	if p.W["walkrace"] > 0 {
+		out.Stats.Notes = append(out.Stats.Notes, "walkrace: pairs of state-changing requests (Walk / Play / PlayForMiner / DoTx) in flight at once on the real node - the first held at one of its yield points (log calls, storage write groups; inside utxo.Mutex but for a walk's first), the second started and seen waiting for the lock, re-admission goroutines run after both returned; the outcome must equal one of the two one-at-a-time orders executed by the real code on copies of the storage image, and the C17 oracles (irreversible blocks stay on the chain, height = max(height - w), monotone) must hold; the Lean driver answers both orders")
 	}
 	out.Stats.Rule = fmt.Sprintf("profile %q: %d generated histories of ~%d steps (transfers incl. zero / frozen / fee outputs and malformed variants, $xvkv contract txs pre-executed by the real sandbox, own blocks, peer blocks on the tip and on forks, walks, reopen) over 3 users, 2 producers, 5 keys; a history is non-trivial if it has >2 blocks and >3 txs; distinct by full op list", p.Name, n, p.Steps)
 }
